@@ -16,7 +16,7 @@ SHARD_TIMEOUT = {'quick': 240, 'thorough': 1500}
 DEPTH = {'quick': (3, 7), 'thorough': (4, 10)}
 PARTS = {'quick': 7, 'thorough': 8}
 CFGS = {'quick': [{}, {'connect_retry_time': 10}], 'thorough': [{}, {'connect_retry_time': 10}, {'connect_retry_time': 40, 'idle_hold_time': 5, 'hold_time': 9}]}
-WALKS = {'quick': (64, 100), 'thorough': (1600, 200)}
+WALKS = {'quick': (256, 100), 'thorough': (1600, 200)}
 BUDGET = {'quick': 45, 'thorough': 700}
 
 # prefix-seeded exploration (states a search from boot reaches only at depth 8+): a session under a pending boot
